@@ -288,5 +288,139 @@ Section InjectProof.
       - rewrite <- H5. unfold absent_ok. apply forallb_ext'. intros g. rewrite member_present_set_present; auto.
       - rewrite (oneof_ok_set_present mf (iv_name f) x fv); auto.
     Qed.
+
+    (* recursiveInjectInputFields on a well-shaped object *)
+    Lemma loop_ok : forall ms,
+        forallb (member_shaped S fs0) ms = true ->
+        forallb (fun kv => json_nodup (snd kv)) ms = true ->
+        forall fs mf any,
+          (forall f, In f fs -> In f fs0) -> NoDup (map iv_name fs) -> inv ms mf fs ->
+          match inject_loop S inj (JObj ms) fs (JObj mf) any with
+          | IOk final _ => exists mf', final = JObj mf' /\ inv ms mf' []
+          | IFuel => True
+          | _ => False
+          end.
+    Proof.
+      intros ms Hsh Hnd. rewrite forallb_forall in Hsh, Hnd.
+      induction fs as [|f r IH]; intros mf any Hsub Hnames Hinv; simpl.
+      - exists mf. auto.
+      - assert (Hf0 : In f fs0) by (apply Hsub; left; auto).
+        assert (Hsub' : forall g, In g r -> In g fs0) by (intros; apply Hsub; right; auto).
+        assert (Hnames' : NoDup (map iv_name r)) by (inversion Hnames; auto).
+        destruct (is_scalar_or_enum S (iv_type f)) eqn:Esc.
+        + destruct (iv_default f) as [dv|] eqn:Edv; [|apply IH; auto; eapply inv_skip; eauto].
+          destruct (obj_get (iv_name f) ms) as [x|] eqn:Ex; [apply IH; auto; eapply inv_skip; eauto|].
+          destruct (field_default_of f dv Hf0 Edv) as [Hn1 [Hc1 _]].
+          assert (Hk : ~ In (iv_name f) (map fst mf)).
+          { destruct Hinv as [_ [_ [H3 _]]]. apply obj_get_none. rewrite H3 by (left; auto). exact Ex. }
+          rewrite set_member_absent by auto.
+          apply IH; auto. eapply inv_append; eauto.
+        + destruct (obj_get (iv_name f) ms) as [x|] eqn:Ex.
+          * (* present: recurse into it *)
+            destruct (obj_get_in _ _ _ Ex) as [k' [Ek Hin]]. subst k'.
+            assert (He : entry S x (iv_type f) = true).
+            { specialize (Hsh _ Hin). unfold member_shaped in Hsh. simpl in Hsh.
+              rewrite (find_ifield_of_in fs0 f fs0_nodup Hf0) in Hsh. rewrite Esc in Hsh. exact Hsh. }
+            assert (Hnx : json_nodup x = true) by (apply (Hnd _ Hin)).
+            pose proof (Hinj (iv_type f) x He Hnx) as Hg.
+            destruct (inj (iv_type f) x) as [fv rep| | |]; simpl in Hg; try contradiction; auto.
+            destruct Hg as [Hc [Hn Hj]]. simpl.
+            destruct rep; [|apply IH; auto; eapply inv_skip; eauto].
+            apply IH; auto. eapply inv_replace; eauto.
+          * destruct (iv_default f) as [dv|] eqn:Edv; [|apply IH; auto; eapply inv_skip; eauto].
+            destruct (field_default_of f dv Hf0 Edv) as [Hn1 [Hc1 [He1 _]]].
+            pose proof (Hinj (iv_type f) (value_to_json dv) (He1 Esc) Hn1) as Hg.
+            destruct (inj (iv_type f) (value_to_json dv)) as [fv rep| | |]; simpl in Hg; try contradiction; auto.
+            destruct Hg as [Hc [Hn Hj]]. simpl.
+            assert (Hk : ~ In (iv_name f) (map fst mf)).
+            { destruct Hinv as [_ [_ [H3 _]]]. apply obj_get_none. rewrite H3 by (left; auto). exact Ex. }
+            rewrite set_member_absent by auto.
+            apply IH; auto. eapply inv_append; eauto; try (rewrite Hc; exact Hc1).
+    Qed.
+
+    Hypothesis Hkind : td_kind td = KInputObject.
+    Hypothesis Hfound : find_type (td_name td) (s_types S) = Some td.
+
+    (* the element / value relation the callers need *)
+    Definition rel (t : ty) (x x' : json) : Prop :=
+      coercible_j d S x' t = coercible_j d S x t /\ json_nodup x' = true /\ jnull x' = jnull x.
+
+    Lemma coercible_obj_at : forall t ms, named_of t = td_name td -> is_list t = false ->
+        coercible_j d S (JObj ms) t = obj_ok ms.
+    Proof.
+      intros t ms Hn Hl. rewrite coercible_j_strip by reflexivity.
+      unfold is_list in Hl. pose proof (named_of_strip t) as Hns.
+      destruct (strip_nonnull t) as [n|t'|t'] eqn:Es; try discriminate.
+      - simpl in Hns. rewrite coercible_j_eq. unfold named_coercible. rewrite Hns, Hn, Hfound, Hkind. reflexivity.
+      - exfalso. eapply strip_nonnull_not_nonnull; eauto.
+    Qed.
+
+    Lemma fields_ok : forall t ms,
+        named_of t = td_name td -> is_list t = false ->
+        forallb (member_shaped S fs0) ms = true -> json_nodup (JObj ms) = true ->
+        match inject_fields S inj (Some fs0) (JObj ms) with
+        | IOk nv _ => rel t (JObj ms) nv
+        | IFuel => True
+        | _ => False
+        end.
+    Proof.
+      intros t ms Hn Hl Hsh Hnd. unfold inject_fields.
+      rewrite json_nodup_obj in Hnd. apply andb_true_iff in Hnd. destruct Hnd as [Hk Hv]. apply nodupb_NoDup in Hk.
+      pose proof (loop_ok ms Hsh Hv fs0 ms false (fun f h => h) fs0_nodup) as H.
+      assert (Hinv0 : inv ms ms fs0) by (repeat split; auto).
+      specialize (H Hinv0).
+      destruct (inject_loop S inj (JObj ms) fs0 (JObj ms) false) as [final any| | |]; auto.
+      destruct H as [mf' [-> [H1 [H2 [_ [H4 [H5 H6]]]]]]].
+      unfold rel. rewrite !(coercible_obj_at t) by auto. unfold obj_ok. rewrite H4, H5, H6.
+      repeat split; auto. rewrite json_nodup_obj. apply andb_true_iff. split; auto. apply nodupb_NoDup. auto.
+    Qed.
+
+    (* jsonWalker when every element is processed successfully: the counter equals the position *)
+    Lemma walk_all : forall (lol : bool) ofs t' (proc : json -> ires),
+        forall l,
+          (forall x, In x l ->
+                     (match x with
+                      | JArr _ => if lol then Some (inj t' x) else None
+                      | JObj _ => if lol then None else Some (inject_fields S inj ofs x)
+                      | _ => None
+                      end) = Some (proc x)
+                     /\ json_nodup x = true
+                     /\ match proc x with IOk nv _ => rel t' x nv | IFuel => True | _ => False end) ->
+          forall pre rep,
+            match inject_walk q S inj lol ofs t' l (length pre) (length pre) (pre ++ l) rep with
+            | IOk out _ => exists l', out = JArr (pre ++ l') /\ Forall2 (rel t') l l'
+            | IFuel => True
+            | _ => False
+            end.
+    Proof.
+      intros lol ofs t' proc. induction l as [|x r IH]; intros Hall pre rep.
+      - simpl. exists []. split; auto.
+      - destruct (Hall x (or_introl eq_refl)) as [Hp [Hn Hr]].
+        pose proof (fun y (Hy : In y r) => Hall y (or_intror Hy)) as Hall'.
+        cbn [inject_walk]. rewrite Hp. cbn [q go_quirks q_inject_drift].
+        destruct (proc x) as [nv b| | |]; try contradiction; auto.
+        destruct b.
+        + rewrite set_nth_app.
+          specialize (IH Hall' (pre ++ [nv]) true). rewrite app_length in IH. simpl in IH.
+          rewrite Nat.add_1_r in IH. rewrite <- app_assoc in IH. simpl in IH.
+          destruct (inject_walk q S inj lol ofs t' r (Datatypes.S (length pre)) (Datatypes.S (length pre)) (pre ++ nv :: r) true) as [out b2| | |]; auto.
+          destruct IH as [l' [-> HF]]. exists (nv :: l'). rewrite <- app_assoc. simpl. split; auto.
+        + specialize (IH Hall' (pre ++ [x]) rep). rewrite app_length in IH. simpl in IH.
+          rewrite Nat.add_1_r in IH. rewrite <- app_assoc in IH. simpl in IH.
+          destruct (inject_walk q S inj lol ofs t' r (Datatypes.S (length pre)) (Datatypes.S (length pre)) (pre ++ x :: r) rep) as [out b2| | |]; auto.
+          destruct IH as [l' [-> HF]]. exists (x :: l'). rewrite <- app_assoc. simpl. split; auto.
+          constructor; auto. unfold rel. auto.
+    Qed.
+
+    (* jsonWalker when no element is processed *)
+    Lemma walk_none : forall (lol : bool) ofs t' l idx i cur rep,
+        (forall x, In x l -> match x with JArr _ => lol = false | JObj _ => lol = true | _ => True end) ->
+        inject_walk q S inj lol ofs t' l idx i cur rep = IOk (JArr cur) rep.
+    Proof.
+      intros lol ofs t'. induction l as [|x r IH]; intros idx i cur rep H; simpl; auto.
+      pose proof (H x (or_introl eq_refl)) as Hx.
+      pose proof (fun y (Hy : In y r) => H y (or_intror Hy)) as Hr.
+      destruct x; try (apply IH; auto); subst lol; apply IH; auto.
+    Qed.
   End Parts.
 End InjectProof.
